@@ -104,6 +104,16 @@ func miscProbes(round int) {
 	try("assert commaok", func() { _, ok := e.(J); println(" ", ok) })
 	var ne interface{}
 	order("assert nil iface", func() { sink = 2; _ = ne.(T); sink = 99 })
+	// a nil value of a non-empty interface type asserted to an interface type (also the empty one) panics
+	var nerr I
+	order("assert nil I to any", func() { sink = 2; _ = nerr.(any); sink = 99 })
+	order("assert nil I to I", func() { sink = 2; _ = nerr.(I); sink = 99 })
+	order("assert nil any to any", func() { sink = 2; _ = ne.(any); sink = 99 })
+	try("assert nil I to any commaok", func() { _, ok := nerr.(any); println(" ", ok) })
+	try("assert nil any to I commaok", func() { _, ok := ne.(I); println(" ", ok) })
+	var full I = T{3, 4}
+	try("assert I to any ok", func() { v := full.(any); println(" ", v.(T).a) })
+	try("assert I to J commaok", func() { _, ok := full.(J); println(" ", ok) })
 	zero := sink - sink
 	order("int div zero", func() { sink = 2; sink = 5 / zero; sink = 99 })
 	order("int rem zero", func() { sink = 2; sink = 5 % zero; sink = 99 })
@@ -135,6 +145,33 @@ func chanProbes() {
 	var nc chan int
 	order("close of nil", func() { sink = 2; close(nc); sink = 99 })
 	try("recv closed", func() { v, ok := <-c; println(" ", v, ok) })
+	// closed AND full: a non-blocking send must still panic, not take default
+	cf := make(chan int, 2)
+	cf <- 1
+	cf <- 2
+	close(cf)
+	order("select send closed full", func() {
+		sink = 2
+		select {
+		case cf <- 3:
+			sink = 98
+		default:
+			sink = 97
+		}
+	})
+	order("send closed full", func() { sink = 2; cf <- 3; sink = 99 })
+	cu := make(chan int)
+	close(cu)
+	order("select send closed unbuffered", func() {
+		sink = 2
+		select {
+		case cu <- 3:
+			sink = 98
+		default:
+			sink = 97
+		}
+	})
+	try("recv closed drains", func() { a, ok1 := <-cf; b, ok2 := <-cf; z, ok3 := <-cf; println(" ", a, ok1, b, ok2, z, ok3) })
 	order("select send closed", func() {
 		sink = 2
 		select {
